@@ -38,7 +38,7 @@ LEVEL_NOTE = 'Trusted: as C01, plus the regex-based whole-word renaming of gener
 VOCAB = ['do_return', 'retval_', 'break_', 'continue_', 'fscope', 'lscope', 'get_state', 'set_state', 'if_body', 'else_body',
          'loop_body', 'loop_test', 'extra_test', 'itr', 'vars_', 'get_state_1', 'set_state_1', 'fscope_1', 'do_return_1', 'retval__1',
          'loop_body_1', 'if_body_1', 'else_body_1', 'break__1', 'continue__1', 'lscope_1', 'loop_test_1', 'itr_1']
-EXCL = ('no_try_else', 'no_for_target_rebind', 'no_lambda_capture_across_rebind', 'no_impure_chain_middle')
+EXCL = ('no_for_target_rebind', 'no_lambda_capture_across_rebind', 'no_impure_chain_middle')
 _KEEP = []
 _USER_ID = re.compile(r'\b(x[0-3]|f[01]|g0|u[01]|v\d|y\d|q|r|c[01]|G[01]|h[12]|w\d+|i\d+|j\d+|it\d+|a|b|ex|z)\b')
 
